@@ -1,4 +1,6 @@
 import CovfieModel.Model.Algebra
+import CovfieModel.Model.Stack
+import Mathlib.Data.List.OfFn
 import Mathlib.Tactic.Ring
 import Mathlib.Algebra.BigOperators.Fin
 import Mathlib.Algebra.BigOperators.Ring.Finset
@@ -53,10 +55,71 @@ theorem translation_apply {N : Nat} (t v : Fin N → α) (i : Fin N) : affApply 
   simp [affTranslation, affId, Nat.ne_of_lt (Fin.isLt _), sum_diag]
 theorem scaling_apply {N : Nat} (s v : Fin N → α) (i : Fin N) : affApply (affScaling s) v i = s i * v i := by
   rw [affApply_spec]
-  simp only [affScaling, affId, Fin.coe_castSucc, Fin.val_last, Nat.ne_of_lt i.isLt, if_false, add_zero]
+  simp only [affScaling, affId, Fin.val_castSucc, Fin.val_last, Nat.ne_of_lt i.isLt, if_false, add_zero]
   rw [Finset.sum_eq_single i]
   · simp
   · intro b _ hb; have : (i : ℕ) ≠ (b : ℕ) := fun e => hb (Fin.ext e.symm); simp [this]
   · simp
 
+end Covfie.C09
+
+/-! ### associativity -/
+namespace Covfie.C09
+variable {α : Type} [CommRing α]
+
+/-- an affine matrix is determined by its action on vectors -/
+theorem affApply_inj {N : Nat} (A B : Fin N → Fin (N+1) → α) (h : ∀ v, affApply A v = affApply B v) : A = B := by
+  funext i j
+  have h0 := congrFun (h (fun _ => 0)) i
+  simp only [affApply_spec] at h0
+  have hl : A i (Fin.last N) = B i (Fin.last N) := by simpa using h0
+  refine Fin.lastCases (motive := fun j => A i j = B i j) hl (fun k => ?_) j
+  have hk := congrFun (h (fun m => if m = k then 1 else 0)) i
+  simp only [affApply_spec] at hk
+  simpa [hl] using hk
+
+/-- composition of affine transforms is associative, so products of any length act as the composed function whatever
+    the association order -/
+theorem affMul_assoc {N : Nat} (P Q R : Fin N → Fin (N+1) → α) : affMul (affMul P Q) R = affMul P (affMul Q R) := by
+  apply affApply_inj
+  intro v
+  funext i
+  have e : affApply (affMul Q R) v = affApply Q (affApply R v) := funext (affMul_apply Q R v)
+  rw [affMul_apply, affMul_apply, affMul_apply, e]
+
+/-- a product of four transforms (the longest chain the correspondence exercises) acts as the four factors applied in turn -/
+theorem affMul_apply4 {N : Nat} (P Q R S : Fin N → Fin (N+1) → α) (v : Fin N → α) :
+    affApply (affMul (affMul (affMul P Q) R) S) v = affApply P (affApply Q (affApply R (affApply S v))) := by
+  funext i; rw [affMul_apply, affMul_apply, affMul_apply]
+end Covfie.C09
+
+/-! ### the layer of the stack model -/
+namespace Covfie.C09
+open Covfie
+
+/-- the row-wise evaluation used by the stack model's affine layer (`affineL`) is the model's `affApply` -/
+theorem affineRow_eq_affApply {N : Nat} (A : Fin N → Fin (N+1) → ℚ) (v : Fin N → ℚ) (i : Fin N) :
+    affineRow (List.ofFn (A i)) (List.ofFn v) = affApply A v i := by
+  have hx : List.ofFn v ++ [1] = List.ofFn (fun k : Fin (N+1) => if h : k.val < N then v ⟨k.val, h⟩ else (1:ℚ)) := by
+    rw [List.ofFn_succ' (n := N)]
+    simp [List.concat_eq_append]
+  unfold affineRow affApply sumFin
+  rw [hx, List.ofFn_eq_map, List.ofFn_eq_map, List.zipWith_map, List.zipWith_self, List.foldl_map]
+
+/-- the affine layer queries what lies beneath at `A·x + t` -/
+theorem affine_layer {N : Nat} (A : Fin N → Fin (N+1) → ℚ) (x : Fin N → ℚ) (bk : Backend) :
+    affineL (List.ofFn fun i => List.ofFn (A i)) bk ((List.ofFn x).map Num.fin) =
+      bk (List.ofFn fun i => Num.fin (affApply A x i)) := by
+  have hm : mapO finOf ((List.ofFn x).map Num.fin) = some (List.ofFn x) := by
+    induction (List.ofFn x) with
+    | nil => rfl
+    | cons a as ih => simp [mapO, finOf, ih]
+  unfold affineL
+  rw [hm]
+  simp only [List.map_ofFn]
+  congr 1
+  apply List.ofFn_inj.mpr
+  funext i
+  simp only [Function.comp]
+  rw [affineRow_eq_affApply]
 end Covfie.C09
